@@ -15,11 +15,29 @@ META = {
     "text": "Lean 4 theorems (unbounded in array length, bounds, pads, scales, point magnitudes) about a "
     "hand model of the ROI helpers: normalisation selects the same elements, 3-way intersection law, "
     "shape/empty/full/centre/pad, scale down-up, region from points (containment, within image, alignment, "
-    "non-finite points ignored, no magnitude bound).  The model is tied to /repo on every run by an exact "
-    "behavioural correspondence (exhaustive on small lengths, random large) and the numpy-based property "
-    "oracle; Spec/PySlice is itself validated against numpy each run.",
+    "non-finite points ignored, no magnitude bound).  Growth round (Model/C17Glue.lean, Props/C17Glue.lean): slices "
+    "WITH a step (normalise_step_pos_same_elements for every positive step, normalise_step_neg_same_when_bounds_in_range; "
+    "normalise_step_neg_cex / shape_ignores_step_cex = findings normalise-negative-step-open-bound, "
+    "shape-empty-full-ignore-step), the one / many dispatch and error branches of roi_normalise / roi_pad / roi_intersect / "
+    "roi_intersect3 / roi_is_full / roi_shape / roi_is_empty / roi_center (zip truncation, (shape,) = shape, assert "
+    "len(a) == len(b), the empty zip), WindowFromSlice, and the head of roi_from_points from its public arguments (shape_ "
+    "spellings incl. XY / float / wrong-length / non-sequence, int() truncation of padding / align, Python % for any sign "
+    "of align, align = 0, point arrays that are not (N, 2)): from_points_public_eq reduces the public call to the "
+    "modelled core, so containment etc. speak about the public call; from_points_negative_align_cex.  The model is tied "
+    "to /repo on every run by an exact behavioural correspondence (exhaustive on small lengths, random large) and the "
+    "numpy-based property oracle; Spec/PySlice and Spec/PySliceStep are validated against numpy each run.  Every helper "
+    "is also called with numpy scalars of every integer dtype (u1..u8, i1..i8) for bounds / lengths / pads / factors - "
+    "wherever no quantity the helper has to form leaves the dtype range the answer must equal the python-int answer or "
+    "raise - and roi_from_points with point arrays of every integer dtype up to the dtype limits.",
     "note": "Trusted: Lean kernel + {propext, Classical.choice, Quot.sound}; numpy slicing as the reference "
-    "semantics; step != None slices are passed through by the library and not modelled.",
+    "semantics.  Known (not repaired): a reversed slice with an open bound is normalised to a slice that selects nothing; "
+    "roi_shape / roi_is_empty / roi_is_full ignore the step.  Excluded points run on the real code and compared with the "
+    "model: negative align (envelope turned inside out), negative padding (region shrinks), align truncating to 0 "
+    "(ZeroDivisionError).  numpy scalars of narrow / unsigned dtypes wrap inside the helpers when an intermediate "
+    "(start - pad, n + x, x + align - 1, start * k) leaves the dtype: plain numpy arithmetic, outside the statement; "
+    "the spelling oracle is restricted to the no-overflow domain.  NOT mirrored: Tiles / VariableSizedTiles / roi_tiles / "
+    "clip_tiles / norm_slice_2d (C04 owns tile indexing), polygon_path with closed=True, roi_shape of a list (not tuple) roi "
+    "(AttributeError), TypeErrors for non-integer bounds.",
     "technique": "Lean 4 proof over hand model + exhaustive/random differential correspondence with real code",
     "design_ref": "DESIGN.md §4 C17",
 }
@@ -100,6 +118,31 @@ def npspell(s, rng):
     if isinstance(s, tuple):
         return tuple(npspell(x, rng) for x in s)
     return cv(s)
+
+
+
+def encs(s) -> str:
+    """index with its step: i:<k> or s:<a>:<b>:<k>"""
+    if isinstance(s, int):
+        return f"i:{s}"
+    return f"s:{opt_s(s.start)}:{opt_s(s.stop)}:{opt_s(s.step)}"
+
+
+def sss(s) -> str:
+    return f"{int(s.start)}:{int(s.stop)}:{opt_s(None if s.step is None else int(s.step))}"
+
+
+def enc_arg(x, f) -> str:
+    """one value or a sequence of values"""
+    if isinstance(x, (tuple, list)):
+        return "m|" + list_s(list(x), f)
+    return "1|" + f(x)
+
+
+def fmt_ans(o, f) -> str:
+    if isinstance(o, tuple):
+        return "many " + list_s(list(o), f)
+    return "one " + f(o)
 
 
 def sel_set(n, s):
@@ -245,7 +288,10 @@ def run(R: Run):
         if kind < 0.3:      # the full region, spelled in various ways
             r_ = tuple(rng.choice([slice(None), slice(0, n), slice(0, None), slice(None, n)]) for n in shape)
         elif kind < 0.45 and nd > 1:  # fewer axes than the array has: trailing axes are whole
-            r_ = tuple(slice(rng.choice([None, 0]), rng.choice([None, n])) for n in shape[:-1])
+            r_ = tuple(slice(rng.choice([None, 0]), rng.choice([None, n])) for n in shape[:rng.randint(1, nd - 1)])
+        elif kind < 0.55 and nd > 1:  # fewer axes, arbitrary bounds on the given ones
+            r_ = tuple(slice(rng.choice([None, 0, rng.randint(-n - 1, n + 1)]), rng.choice([None, n, rng.randint(-n - 1, n + 1)]))
+                       for n in shape[:rng.randint(1, nd - 1)])
         else:
             r_ = tuple(slice(rng.choice([None, rng.randint(-n - 1, n + 1)]), rng.choice([None, rng.randint(-n - 1, n + 1)]))
                        for n in shape)
@@ -266,13 +312,14 @@ def run(R: Run):
             okn = (not isinstance(o, str)) and isinstance(o, tuple) and len(o) == len(r_) and np.array_equal(X[o], sel) \
                 and all(isinstance(x.start, (int, np.integer)) and isinstance(x.stop, (int, np.integer)) for x in o)
             R.oracle(okn, "normalise-nd-selects-different-elements", case, f"roi_normalise -> {o}", sig=f"norm-nd|{nm}")
-            if len(r_) == nd:   # roi_is_full documents "covers (0,..) -> shape": one entry per axis
+            if len(r_) <= nd:   # a roi with fewer entries than axes leaves the trailing axes whole (numpy: X[roi])
                 fl = guarded(lambda: roi.roi_is_full(r_, shp))
                 want = all((x.start in (0, None)) and (x.stop in (n, None)) for x, n in zip(r_, shape))
                 # index-set meaning: whenever the answer is True the selection IS the whole array; and every
                 # canonical spelling of "everything" is recognised
                 R.oracle(fl is want and (not fl or sel.shape == X.shape), "full-iff-nd", case,
-                         f"roi_is_full -> {fl}, X[roi].shape={sel.shape}, X.shape={X.shape}", sig=f"full-nd|{nm}")
+                         f"roi_is_full -> {fl}, X[roi].shape={sel.shape}, X.shape={X.shape}",
+                         sig=f"full-nd|{nm}" + ("|fewer-axes" if len(r_) < nd else ""))
             pp = guarded(lambda: roi.roi_pad(r_, pad, shp))
             ref.setdefault("pad", pp if nm == "tuple" else None)
             if nm != "tuple":
@@ -451,9 +498,192 @@ def run(R: Run):
         R.corr(f"c17 pad {n} {k} {enc(s_)}", lambda: ns(roi.roi_pad(s_, k, n)), sig="pad|big")
         # roi_center returns a double: beyond 2**53 only rounding-level agreement can be asked (float stream)
         cc = roi.roi_center(sa)
-        R.oracle(abs(Fraction(cc) - Fraction(a + b, 2)) <= Fraction(a + b, 2) * Fraction(1, 2**52), "center-big",
+        R.oracle(abs(Fraction(cc) - Fraction(a + b, 2)) <= Fraction(a + b, 2) * Fraction(1, 2**50), "center-big",
                  {"a": a, "b": b}, f"roi_center={cc!r}")
 
+    # ======================= glue (Model/C17Glue.lean): steps, one / many dispatch, error branches, w_, public from_points
+    steps = [None, 1, 2, 3, -1, -2, -3]
+    # --- Spec/PySliceStep against numpy, exhaustive on small lengths
+    for n in range(0, R.pick(5, 7) + 1):
+        for a in [None] + list(range(-n - 2, n + 3)):
+            for b in [None] + list(range(-n - 2, n + 3)):
+                for k in (1, 2, 3, -1, -2, -3):
+                    R.corr(f"c17 selstep {n} {opt_s(a)} {opt_s(b)} {k}", lambda: list_s(np.arange(n)[a:b:k].tolist()),
+                           sig=f"spec-selstep|{'pos' if k > 0 else 'neg'}")
+    # --- _norm_slice with a step: exhaustive small; numpy decides what "same elements" means
+    for n in range(0, R.pick(5, 7) + 1):
+        X = np.arange(n)
+        for a in [None] + list(range(-n - 2, n + 3)):
+            for b in [None] + list(range(-n - 2, n + 3)):
+                for k in steps:
+                    s_ = slice(a, b, k)
+                    res = []
+
+                    def fs():
+                        o = roi.roi_normalise(s_, n)
+                        res.append(o)
+                        return sss(o)
+
+                    R.corr(f"c17 norms {n} {encs(s_)}", fs, sig=f"norms|step={'none' if k is None else 'pos' if k > 0 else 'neg'}")
+                    if not res:
+                        continue
+                    same = np.array_equal(X[s_], X[res[0]])
+                    excluded = k is not None and k < 0 and any(v is None or v < -n for v in (a, b))
+                    case = {"fn": "roi_normalise", "n": n, "s": encs(s_), "out": sss(res[0])}
+                    if excluded:
+                        # Lean: normalise_step_neg_cex - an open (or below -n) bound of a reversed slice
+                        R.oracle(same, "normalise-negative-step-open-bound", case,
+                                 f"X[{s_}] = {X[s_].tolist()} but X[{res[0]}] = {X[res[0]].tolist()} for len {n}", sig="norms-neg-open")
+                    else:
+                        R.oracle(same, "normalise-selects-different-elements", case,
+                                 f"X[{s_}] = {X[s_].tolist()} but X[{res[0]}] = {X[res[0]].tolist()} for len {n}",
+                                 sig=f"norms-oracle|{'none' if k is None else 'pos' if k > 0 else 'neg-in-range'}")
+                    if k is not None and abs(k) >= 2 and a is not None and b is not None and 0 <= a <= b <= n:
+                        # Lean: shape_ignores_step_cex
+                        R.oracle(roi.roi_shape(s_)[0] == len(X[s_]) and roi.roi_is_empty(s_) == (len(X[s_]) == 0)
+                                 and (not roi.roi_is_full(s_, n) or len(X[s_]) == n), "shape-empty-full-ignore-step",
+                                 {"s": encs(s_), "n": n},
+                                 f"roi_shape={roi.roi_shape(s_)} roi_is_full={roi.roi_is_full(s_, n)} but X[s] has {len(X[s_])} of {n} elements",
+                                 sig="step-shape")
+    # --- one / many dispatch of the public helpers (tuple and list containers; scalar or sequence shapes; lengths that do not match)
+    def rnd_sidx(n, allow_int=True):
+        r = rng.random()
+        if allow_int and r < 0.2:
+            return rng.randint(-n - 1, n + 1)
+        return slice(rng.choice([None, rng.randint(-n - 2, n + 2)]), rng.choice([None, rng.randint(-n - 2, n + 2)]),
+                     rng.choice([None, None, None, 1, 2, -1]))
+
+    def rnd_closed(n):
+        a, b = rng.randint(0, n), rng.randint(0, n)
+        r = rng.random()
+        if r < 0.1:
+            return rng.randint(-1, n)
+        if r < 0.2:
+            return slice(rng.choice([None, a]), rng.choice([None, -1, b]), rng.choice([None, 2]))
+        return slice(a, b, rng.choice([None, None, 2]))
+
+    cont = lambda xs: rng.choice([tuple, list])(xs)
+    for _ in range(R.pick(4000, 40000)):
+        nd = rng.choice([0, 1, 1, 2, 2, 3])
+        shape = [rng.randint(0, 7) for _ in range(rng.choice([nd, nd, nd, max(0, nd - 1), nd + 1]))]
+        roi_one = rng.random() < 0.3
+        shape_one = rng.random() < 0.3
+        r_ = rnd_sidx(5) if roi_one else cont([rnd_sidx(n) for n in (shape + [4])[:nd]] if nd else [])
+        sh_ = rng.randint(0, 7) if shape_one else cont(shape)
+        sig_ = f"{'one' if roi_one else 'many'}/{'one' if shape_one else 'many'}"
+        pad = rng.choice([0, 1, 2])
+        R.corr(f"c17 normarg {enc_arg(r_, encs)} {enc_arg(sh_, str)}", lambda: fmt_ans(roi.roi_normalise(r_, sh_), sss), sig=f"normarg|{sig_}")
+        R.corr(f"c17 padarg {enc_arg(r_, encs)} {pad} {enc_arg(sh_, str)}", lambda: fmt_ans(roi.roi_pad(r_, pad, sh_), sss), sig=f"padarg|{sig_}")
+        R.corr(f"c17 fullarg {enc_arg(r_, encs)} {enc_arg(sh_, str)}", lambda: bool_s(roi.roi_is_full(r_, sh_)), sig=f"fullarg|{sig_}")
+        # intersections / shape / centre: closed operands and the error branches (open right end, negative bounds)
+        a_one, b_one = rng.random() < 0.3, rng.random() < 0.3
+        na = rng.choice([0, 1, 2, 2, 3])
+        nb = rng.choice([na, na, na, na + 1, max(0, na - 1)])
+        a_ = rnd_closed(9) if a_one else cont([rnd_closed(9) for _ in range(na)])
+        b_ = rnd_closed(9) if b_one else cont([rnd_closed(9) for _ in range(nb)])
+        sig2 = f"{'one' if a_one else 'many'}/{'one' if b_one else 'many'}"
+        R.corr(f"c17 intarg {enc_arg(a_, encs)} {enc_arg(b_, encs)}", lambda: fmt_ans(roi.roi_intersect(a_, b_), ns), sig=f"intarg|{sig2}")
+        if not a_one and not b_one:
+            R.corr(f"c17 int3arg {list_s(list(a_), encs)} {list_s(list(b_), encs)}",
+                   lambda: " ".join(list_s(list(v), ns) for v in roi.roi_intersect3(tuple(a_), tuple(b_))),
+                   sig=f"int3arg|{'len-differs' if na != nb else 'no-axis' if na == 0 else 'ok'}")
+        t_ = a_ if a_one else tuple(a_)      # roi_shape tells tuples (N-D) from everything else
+        R.corr(f"c17 shapearg {enc_arg(t_, encs)}", lambda: list_s([int(v) for v in roi.roi_shape(t_)]), sig=f"shapearg|{'one' if a_one else 'many'}")
+        R.corr(f"c17 emptyarg {enc_arg(t_, encs)}", lambda: bool_s(roi.roi_is_empty(t_)), sig=f"emptyarg|{'one' if a_one else 'many'}")
+        R.corr(f"c17 centerarg {enc_arg(a_, encs)}", lambda: fmt_ans(roi.roi_center(a_), lambda v: frac_s(v)), sig=f"centerarg|{'one' if a_one else 'many'}")
+    # --- norm_slice_2d: tuple / Index2d / XY spellings of a 2-D index
+    from odc.geo.types import Index2d as _Index2d
+    from odc.geo.types import xy_ as _xy_
+    for _ in range(R.pick(800, 8000)):
+        ny, nx = rng.randint(1, 9), rng.randint(1, 9)
+        y, x = rng.randint(-ny - 1, ny), rng.randint(-nx - 1, nx)
+        r = rng.random()
+        if r < 0.3:
+            idx_, enc_ = _Index2d(x=x, y=y), f"I|{y}|{x}"
+        elif r < 0.45:
+            idx_, enc_ = _xy_(x, y), f"I|{y}|{x}"
+        elif r < 0.9:
+            items = [rng.choice([y, rnd_sidx(ny)]), rng.choice([x, rnd_sidx(nx)])]
+            idx_, enc_ = tuple(items), "T|" + list_s(items, encs)
+        else:
+            idx_, enc_ = rng.choice([[y, x], 5, None, "ab"]), "O"
+        R.corr(f"c17 ns2d {enc_} {list_s([ny, nx], str)}", lambda: list_s(list(roi.norm_slice_2d(idx_, (ny, nx))), sss),
+               sig=f"ns2d|{enc_[0]}")
+        if enc_[0] == "I" and -ny <= y < ny and -nx <= x < nx:
+            o = roi.norm_slice_2d(idx_, (ny, nx))
+            X = np.arange(ny * nx).reshape(ny, nx)
+            R.oracle(X[o].shape == (1, 1) and X[o][0, 0] == X[y, x], "norm-slice-2d-selects-element", {"idx": [y, x], "shape": [ny, nx]},
+                     f"{o}")
+    # --- WindowFromSlice
+    def enc_ob(x):
+        return f"{opt_s(x.start)}:{opt_s(x.stop)}"
+
+    for _ in range(R.pick(600, 6000)):
+        k = rng.choice([2, 2, 2, 2, 0, 1, 3])
+        wr = None if rng.random() < 0.05 else cont([slice(rng.choice([None, rng.randint(0, 50)]), rng.choice([None, rng.randint(0, 50)]),
+                                                          rng.choice([None, None, 2])) for _ in range(k)])
+
+        def fw():
+            o = roi.w_[wr]
+            if o is None:
+                return "N"
+            (y0, y1), (x0, x1) = o
+            return f"{y0}:{opt_s(y1)} {x0}:{opt_s(x1)}"
+
+        R.corr("c17 win " + ("N" if wr is None else list_s(list(wr), enc_ob)), fw, sig=f"win|{'none' if wr is None else k}")
+        if wr is not None and k == 2 and all(x.start is not None and x.stop is not None and x.start <= x.stop for x in wr):
+            o = roi.w_[wr]
+            X = np.zeros((60, 60))
+            R.oracle(X[wr[0].start:wr[0].stop, wr[1].start:wr[1].stop].shape == (o[0][1] - o[0][0], o[1][1] - o[1][0])
+                     and (o[0][0], o[1][0]) == (wr[0].start, wr[1].start), "window-from-slice", {"roi": [enc_ob(x) for x in wr]}, f"{o}")
+    # --- roi_from_points from its public arguments: shape spellings (incl. floats, wrong length, non-sequences), float / negative
+    #     padding, float / zero / negative align, point arrays that are not (N, 2)
+
+    for _ in range(R.pick(3000, 30000)):
+        ny, nx = rng.randint(1, 40), rng.randint(1, 40)
+        r = rng.random()
+        if r < 0.25:
+            shp, shs = Shape2d(x=nx, y=ny), f"S2:{ny}:{nx}"
+        elif r < 0.4:
+            fx, fy = nx + rng.choice([0, 0.5, 0.75]), ny + rng.choice([0, 0.25])
+            shp, shs = _xy_(fx, fy), f"XY:{frac_s(fx)}:{frac_s(fy)}"
+        elif r < 0.85:
+            vals = [ny + rng.choice([0, 0, 0.5]), nx + rng.choice([0, 0, 0.75])]
+            if rng.random() < 0.12:
+                vals = vals[:rng.choice([0, 1])] if rng.random() < 0.5 else vals + [3]
+            shp, shs = cont(vals), "SEQ:" + list_s(vals, frac_s)
+        else:
+            shp, shs = rng.choice([7, None, np.array([ny, nx]), 2.5]), "OTHER"
+        pad = rng.choice([0, 0, 1, 2, 1.5, 2.75, 0.5, -0.5, -1, -2.5])
+        al = rng.choice([None, None, None, 1, 2, 4, 16, 4.5, 0, 0.5, -0.25, -4, -2])
+        k = rng.randint(0, 4)
+        pts = [(rng.choice([rng.randint(0, 4 * nx) / 4, rng.randint(-8 * nx, 12 * nx) / 8, float("nan"), float("inf")]),
+                rng.choice([rng.randint(0, 4 * ny) / 4, rng.randint(-8 * ny, 12 * ny) / 8, float("-inf")])) for _ in range(k)]
+        xy_ok = rng.random() < 0.92
+        arr_ = np.asarray(pts, dtype="float64").reshape(-1, 2)
+        bad_arr = arr_ if xy_ok else rng.choice([np.zeros((3,)), np.zeros((2, 3)), np.zeros((2, 2, 2))])
+        line = (f"c17 fromptsp {shs} {frac_s(pad)} {opt_s(None if al is None else frac_s(al))} {bool_s(xy_ok)} "
+                + list_s([f"{enc_coord(x)};{enc_coord(y)}" for x, y in pts]))
+        res = []
+
+        def fpp():
+            o = roi.roi_from_points(bad_arr, shp, padding=pad, align=al)
+            res.append(o)
+            return f"{ns(o[0])} {ns(o[1])}"
+
+        tagp = ("bad-shape" if shs == "OTHER" or (shs.startswith("SEQ") and len(shp) != 2) else "bad-xy" if not xy_ok else
+                "align<=0" if al is not None and int(al) <= 0 else "pad<0" if int(pad) < 0 else "float-args" if (pad != int(pad) or (al and al != int(al))) else "plain")
+        R.corr(line, fpp, sig=f"fromptsp|{tagp}|{shs.split(':')[0]}")
+        if res and tagp in ("plain", "float-args"):
+            ys, xs = res[0]
+            ip, ia = int(pad), (None if al is None else int(al))
+            ny_, nx_ = (int(ny), int(nx))
+            for (x, y) in pts:
+                if math.isfinite(x) and math.isfinite(y) and 0 <= x <= nx_ and 0 <= y <= ny_:
+                    R.oracle(xs.start <= max(0, x - ip) and min(nx_, x + ip) <= xs.stop and ys.start <= max(0, y - ip)
+                             and min(ny_, y + ip) <= ys.stop, "from-points-drops-inside-point", {"line": line, "pt": [x, y]},
+                             f"point ({x},{y}) inside the image is not within {res[0]} (padding={pad!r} align={al!r})",
+                             sig="fromptsp-contains")
     # --- roi_boundary (model of Model/C03, theorems of Props/C17Boundary): samples on the perimeter, corners
     #     included, 4*(pts_per_side - 1) of them.  Exact stream: step (b - a)/(pps - 1) with pps - 1 a power of two
     #     and small bounds, so that the float32 linspace of the code is exact
@@ -478,18 +708,25 @@ def run(R: Run):
                      {"roi": [y0, y1, x0, x1], "pps": pps}, f"{pts_[:12]}", sig=f"bnd|pps={pps}")
 
     # --- roi_from_points
-    def pts_case(pts, ny, nx, pad, al, tag, spell=None):
+    def pts_case(pts, ny, nx, pad, al, tag, spell=None, int_arr=None):
         """spell: how the SAME mathematical input is spelled — dtype/layout/writeability of the point array,
-        container/int type of shape, int type of padding/align.  The expected answer depends on the values only."""
-        spell = spell or {}
-        base = np.asarray(pts, dtype="float64").reshape(-1, 2)
-        dt = spell.get("dtype", "float64")
-        with np.errstate(over="ignore", invalid="ignore"):
-            if dt.startswith("int"):
-                if base.size and not (np.isfinite(base).all() and (np.abs(base) < 2.0**(31 if dt == "int32" else 52)).all()
-                                      and (base == np.floor(base)).all()):
-                    dt = "float64"
-            arr = base.astype(dt)
+        container/int type of shape, int type of padding/align.  The expected answer depends on the values only.
+        int_arr: the points as an integer ndarray of any integer dtype (values exact, up to the dtype limits)."""
+        spell = dict(spell or {})
+        if int_arr is not None:
+            base = None
+            arr = int_arr
+            spell["dtype"] = str(int_arr.dtype)
+            dt = str(int_arr.dtype)
+        else:
+            base = np.asarray(pts, dtype="float64").reshape(-1, 2)
+            dt = spell.get("dtype", "float64")
+            with np.errstate(over="ignore", invalid="ignore"):
+                if dt.startswith("int"):
+                    if base.size and not (np.isfinite(base).all() and (np.abs(base) < 2.0**(31 if dt == "int32" else 52)).all()
+                                          and (base == np.floor(base)).all()):
+                        dt = "float64"
+                arr = base.astype(dt)
         lay = spell.get("layout", "C")
         if lay == "F":
             arr = np.asfortranarray(arr)
@@ -500,8 +737,11 @@ def run(R: Run):
             arr = v_
         if spell.get("ro"):
             arr.flags.writeable = False
-        with np.errstate(over="ignore", invalid="ignore"):
-            vals = arr.astype("float64")  # exact: every float16/32 and |int| < 2**52 is a double
+        if int_arr is not None:
+            vals = [(Fraction(int(x)), Fraction(int(y))) for x, y in arr.tolist()]   # exact python ints
+        else:
+            with np.errstate(over="ignore", invalid="ignore"):
+                vals = arr.astype("float64")  # exact: every float16/32 and |int| < 2**52 is a double
         snapshot = arr.copy()
         shp = {"tuple": lambda: (ny, nx), "list": lambda: [ny, nx], "shape2d": lambda: Shape2d(x=nx, y=ny),
                "npints": lambda: (np.int64(ny), np.int64(nx)), "seq": lambda: _Seq([ny, nx])}[spell.get("shape", "tuple")]()
@@ -514,8 +754,11 @@ def run(R: Run):
             res.append(o)
             return f"{ns(o[0])} {ns(o[1])}"
 
-        line = f"c17 frompts {ny} {nx} {pad} {opt_s(al)} " + list_s(
-            [f"{enc_coord(float(x))};{enc_coord(float(y))}" for x, y in vals])
+        if int_arr is not None:
+            line = f"c17 frompts {ny} {nx} {pad} {opt_s(al)} " + list_s([f"{int(x)};{int(y)}" for x, y in vals])
+        else:
+            line = f"c17 frompts {ny} {nx} {pad} {opt_s(al)} " + list_s(
+                [f"{enc_coord(float(x))};{enc_coord(float(y))}" for x, y in vals])
         sp_tag = "|".join(f"{k}={v}" for k, v in sorted(spell.items()) if v not in (False, "float64", "C", "tuple"))
         R.corr(line, f, sig=f"frompts|{tag}" + (f"|{sp_tag}" if sp_tag else ""))
         case = {"line": line, "spell": spell}
@@ -525,7 +768,8 @@ def run(R: Run):
             R.oracle(False, "from-points-raises", case, "roi_from_points raised")
             return
         ys, xs = res[0]
-        fin = [(Fraction(float(x)), Fraction(float(y))) for x, y in vals if math.isfinite(x) and math.isfinite(y)]
+        fin = (list(vals) if int_arr is not None else
+               [(Fraction(float(x)), Fraction(float(y))) for x, y in vals if math.isfinite(x) and math.isfinite(y)])
         ok_within = 0 <= ys.start <= ny and 0 <= ys.stop <= ny and 0 <= xs.start <= nx and 0 <= xs.stop <= nx
         R.oracle(ok_within, "from-points-outside-image", case, f"{res[0]}", trivial=True)
         for (x, y) in fin:
@@ -621,6 +865,103 @@ def run(R: Run):
         pad = rng.choice([0, 1, 1, 2, 3, 5, 100])
         al = rng.choice([None, None, 1, 2, 4, 16, 256])
         pts_case(pts, ny, nx, pad, al, f"big-image|2^{e}", rnd_spell(allow_np=e < 62))
+    # the point array in every INTEGER dtype (pixel indices from argwhere / nonzero / an offset table), values up to the
+    # dtype limits (sentinels), points closer to the origin than the padding: the answer depends on the values only
+    INT_DT = ["uint8", "uint16", "uint32", "uint64", "int8", "int16", "int32", "int64"]
+    for _ in range(R.pick(2500, 25000)):
+        dt_ = rng.choice(INT_DT)
+        ii = np.iinfo(dt_)
+        ny, nx = rng.randint(1, 60), rng.randint(1, 60)
+        pad = rng.choice([0, 1, 2, 3, 5, 100])
+
+        def icoord(n):
+            r = rng.random()
+            if r < 0.5:
+                v = rng.randint(0, n)
+            elif r < 0.7:
+                v = rng.choice([0, 0, 1, 2, max(0, pad - 1), pad])
+            elif r < 0.85:
+                v = rng.choice([ii.max, ii.max - 1, ii.max - pad, ii.min, ii.min + 1, ii.min + pad, -1, -pad, n + pad])
+            else:
+                v = rng.randint(-3 * n, 4 * n)
+            return min(max(v, ii.min), ii.max)
+
+        k = rng.randint(0, 4)
+        arr_ = np.array([(icoord(nx), icoord(ny)) for _ in range(k)], dtype=dt_).reshape(-1, 2)
+        al = rng.choice([None, None, 1, 2, 4, 16])
+        lim = bool(k) and bool(((arr_ == ii.max) | (arr_ == ii.min)).any()) and ii.min != 0 or bool(k) and bool((arr_ == ii.max).any())
+        pts_case(None, ny, nx, pad, al, f"int-dtype|{'at-limit' if lim else 'below-pad' if k and int(arr_.min()) < pad else 'plain'}",
+                 {"layout": rng.choice(["C", "C", "F", "view"]), "ro": rng.random() < 0.2,
+                  "shape": rng.choice(["tuple", "list", "shape2d", "npints", "seq"]), "np_pad": rng.random() < 0.3},
+                 int_arr=arr_)
+
+    # --- every helper with bounds / lengths / pads / factors spelled as numpy scalars of EVERY integer dtype: wherever all
+    #     the quantities the helper has to form (n + x, start - pad, stop + pad, stop - start, x + align - 1, start * k ...)
+    #     fit the dtype, the answer must be the answer for python ints (numpy arithmetic is exact there); an exception is
+    #     accepted, a different value is not
+    def fits(dt_, *vs):
+        ii = np.iinfo(dt_)
+        return all(ii.min <= v <= ii.max for v in vs)
+
+    def same(got, want):
+        return isinstance(got, str) and got.startswith("ERR:") or got == want
+
+    for _ in range(R.pick(6000, 60000)):
+        dt_ = getattr(np, rng.choice(INT_DT))
+        ii = np.iinfo(dt_)
+        top = rng.choice([12, 12, ii.max])
+        pick = lambda lo=0: rng.choice([0, 1, 2, 3, 4, 5, 7, rng.randint(lo, 12), min(top, ii.max), min(top, ii.max) - 1,
+                                        min(top, ii.max) // 2, min(top, ii.max) // 3])
+        a, b = pick(), pick()
+        n = pick()
+        pad = rng.choice([0, 1, 2, 3])
+        k = rng.choice([1, 2, 3, 5, 7, 12])
+        sa = slice(a, b)
+        sp = slice(dt_(a), dt_(b))
+        which = rng.choice(["bounds", "factor", "both"])
+        spb = sp if which in ("bounds", "both") else sa
+        kk = dt_(k) if which in ("factor", "both") else k
+        padk = dt_(pad) if which in ("factor", "both") else pad
+        nn = dt_(n) if which in ("factor", "both") else n
+        case = {"dtype": dt_.__name__, "a": a, "b": b, "n": n, "pad": pad, "k": k, "spelled": which}
+        with np.errstate(all="ignore"):
+            import warnings as _w
+            with _w.catch_warnings():
+                _w.simplefilter("ignore")
+                checks = []
+                if fits(dt_, n + a, n + b, a - pad, b + pad, n):
+                    checks.append(("roi_pad", guarded(lambda: ns(roi.roi_pad(spb, padk, nn))), guarded(lambda: ns(roi.roi_pad(sa, pad, n)))))
+                    checks.append(("roi_normalise", guarded(lambda: ns(roi.roi_normalise(spb, nn))), guarded(lambda: ns(roi.roi_normalise(sa, n)))))
+                if fits(dt_, b - a, a - b):
+                    checks.append(("roi_shape", guarded(lambda: str(int(roi.roi_shape(spb)[0]))), guarded(lambda: str(roi.roi_shape(sa)[0]))))
+                    checks.append(("roi_is_empty", guarded(lambda: bool_s(bool(roi.roi_is_empty(spb)))), guarded(lambda: bool_s(roi.roi_is_empty(sa)))))
+                checks.append(("roi_is_full", guarded(lambda: bool_s(bool(roi.roi_is_full(spb, nn)))), guarded(lambda: bool_s(roi.roi_is_full(sa, n)))))
+                if fits(dt_, b + k - 1, a + k - 1, n + k - 1, k):
+                    checks.append(("scaled_down_roi", guarded(lambda: ns(roi.scaled_down_roi((spb, spb), kk)[0])),
+                                   guarded(lambda: ns(roi.scaled_down_roi((sa, sa), k)[0]))))
+                    checks.append(("scaled_down_shape", guarded(lambda: str(int(roi.scaled_down_shape((nn, nn), kk)[0]))),
+                                   guarded(lambda: str(roi.scaled_down_shape((n, n), k)[0]))))
+                    checks.append(("align_up", guarded(lambda: str(int(M.align_up(dt_(a) if which != "factor" else a, kk)))),
+                                   guarded(lambda: str(M.align_up(a, k)))))
+                    checks.append(("align_down", guarded(lambda: str(int(M.align_down(dt_(a) if which != "factor" else a, kk)))),
+                                   guarded(lambda: str(M.align_down(a, k)))))
+                if fits(dt_, a * k, b * k, k):
+                    checks.append(("scaled_up_roi", guarded(lambda: ns(roi.scaled_up_roi((spb, spb), kk)[0])),
+                                   guarded(lambda: ns(roi.scaled_up_roi((sa, sa), k)[0]))))
+                c, d = sorted([pick(), pick()])
+                a2, b2 = sorted([a, b])
+                if fits(dt_, b2 - a2, d - c, a2 - c, c - a2, b2 - c, d - a2, -(b2 - a2), -(d - c)):
+                    s1, s2 = slice(a2, b2), slice(c, d)
+                    p1, p2 = slice(dt_(a2), dt_(b2)), slice(dt_(c), dt_(d))
+                    checks.append(("slice_intersect3", guarded(lambda: " ".join(ns(v) for v in roi.slice_intersect3(p1, p2))),
+                                   guarded(lambda: " ".join(ns(v) for v in roi.slice_intersect3(s1, s2)))))
+                    checks.append(("roi_intersect", guarded(lambda: ns(roi.roi_intersect(p1, p2))), guarded(lambda: ns(roi.roi_intersect(s1, s2)))))
+                    case = dict(case, c=c, d=d)
+        for fn_, got, want in checks:
+            R.oracle(same(got, want), f"numpy-int-spelling-changes-result:{fn_}", dict(case, fn=fn_),
+                     f"{fn_} with {dt_.__name__} scalars ({which}) gives {got}, with python ints {want} (no quantity leaves the dtype range)",
+                     sig=f"int-spelling|{fn_}|{dt_.__name__}|{'at-limit' if top == ii.max else 'small'}")
+
     # corpus: the replay of finding F11
     pts_case([(5, 5), (1e12, 7)], 100, 100, 0, None, "far")
     pts_case([(5, 5), (-1e12, 7)], 100, 100, 0, None, "far")
@@ -641,7 +982,100 @@ def replay(R: Run, rec) -> int:
     if "line" in case:
         line = case["line"]
         print("model:", __import__("harness.common", fromlist=["run_driver"]).run_driver("C17", [line]))
-    if rec.get("key") == "normalise-selects-different-elements":
+    key = rec.get("key", "")
+    o_ = lambda v: None if v == "N" else int(v)
+
+    def dec(sx):
+        t = sx.split(":")
+        if t[0] == "i":
+            return int(t[1])
+        return slice(*[o_(v) for v in t[1:]])
+
+    if key.startswith("numpy-int-spelling-changes-result:"):
+        import warnings
+        warnings.simplefilter("ignore")
+        dt_ = getattr(np, case["dtype"])
+        fn_ = case["fn"]
+        a, b, n, pad, k = (case[x] for x in ("a", "b", "n", "pad", "k"))
+        both = case["spelled"] in ("factor", "both")
+        bnd = case["spelled"] in ("bounds", "both")
+        sa = slice(a, b)
+        sp = slice(dt_(a), dt_(b)) if bnd else sa
+        kk, pp, nn = (dt_(k), dt_(pad), dt_(n)) if both else (k, pad, n)
+        calls = {
+            "roi_pad": (lambda: ns(roi.roi_pad(sp, pp, nn)), lambda: ns(roi.roi_pad(sa, pad, n))),
+            "roi_normalise": (lambda: ns(roi.roi_normalise(sp, nn)), lambda: ns(roi.roi_normalise(sa, n))),
+            "roi_shape": (lambda: str(int(roi.roi_shape(sp)[0])), lambda: str(roi.roi_shape(sa)[0])),
+            "roi_is_empty": (lambda: bool_s(bool(roi.roi_is_empty(sp))), lambda: bool_s(roi.roi_is_empty(sa))),
+            "roi_is_full": (lambda: bool_s(bool(roi.roi_is_full(sp, nn))), lambda: bool_s(roi.roi_is_full(sa, n))),
+            "scaled_down_roi": (lambda: ns(roi.scaled_down_roi((sp, sp), kk)[0]), lambda: ns(roi.scaled_down_roi((sa, sa), k)[0])),
+            "scaled_down_shape": (lambda: str(int(roi.scaled_down_shape((nn, nn), kk)[0])), lambda: str(roi.scaled_down_shape((n, n), k)[0])),
+            "scaled_up_roi": (lambda: ns(roi.scaled_up_roi((sp, sp), kk)[0]), lambda: ns(roi.scaled_up_roi((sa, sa), k)[0])),
+            "align_up": (lambda: str(int(M.align_up(dt_(a) if bnd else a, kk))), lambda: str(M.align_up(a, k))),
+            "align_down": (lambda: str(int(M.align_down(dt_(a) if bnd else a, kk))), lambda: str(M.align_down(a, k))),
+        }
+        if fn_ in ("slice_intersect3", "roi_intersect"):
+            a2, b2 = sorted([a, b])
+            c, d = case["c"], case["d"]
+            p1, p2, s1, s2 = slice(dt_(a2), dt_(b2)), slice(dt_(c), dt_(d)), slice(a2, b2), slice(c, d)
+            calls["slice_intersect3"] = (lambda: " ".join(ns(v) for v in roi.slice_intersect3(p1, p2)),
+                                         lambda: " ".join(ns(v) for v in roi.slice_intersect3(s1, s2)))
+            calls["roi_intersect"] = (lambda: ns(roi.roi_intersect(p1, p2)), lambda: ns(roi.roi_intersect(s1, s2)))
+        got, want = guarded(calls[fn_][0]), guarded(calls[fn_][1])
+        print(f"{fn_} with {case['dtype']} scalars -> {got}; with python ints -> {want}")
+        return 0 if (got == want or got.startswith("ERR:")) else 1
+    if key == "full-iff-nd":
+        r_ = tuple(dec(x.replace("s:", "s:", 1)) if x.count(":") == 3 else slice(*[o_(v) for v in x.split(":")[1:]]) for x in case["roi"])
+        shape = tuple(case["shape"])
+        X = np.zeros(shape)
+        fl = roi.roi_is_full(r_, shape_spellings(shape)[case.get("spelling", "tuple")])
+        want = all((x.start in (0, None)) and (x.stop in (n, None)) for x, n in zip(r_, shape))
+        print(f"roi_is_full({r_}, {shape}) -> {fl}; X[roi].shape = {X[r_].shape}, X.shape = {X.shape}")
+        return 0 if fl is want else 1
+    if key in ("normalise-negative-step-open-bound", "shape-empty-full-ignore-step"):
+        s_ = dec(case["s"])
+        n = case["n"]
+        X = np.arange(n)
+        o = roi.roi_normalise(s_, n)
+        print(f"X[{s_}] = {X[s_].tolist()}  X[roi_normalise] = X[{o}] = {X[o].tolist()}  roi_shape = "
+              f"{guarded(lambda: str(roi.roi_shape(s_)))} roi_is_full = {roi.roi_is_full(s_, n)}")
+        if key.startswith("normalise"):
+            return 0 if np.array_equal(X[s_], X[o]) else 1
+        return 0 if roi.roi_shape(s_)[0] == len(X[s_]) else 1
+    if key.startswith("from-points") and case.get("line", "").startswith("c17 frompts "):
+        t = case["line"].split(" ")
+        ny, nx, pad, al = int(t[2]), int(t[3]), int(t[4]), o_(t[5])
+        spell = case.get("spell") or {}
+        dt = spell.get("dtype", "float64")
+
+        def cv(v):
+            if v == "nf":
+                return float("nan")
+            fr = Fraction(v)
+            return int(fr) if dt.startswith(("int", "uint")) else float(fr)
+
+        body = t[6][1:-1]
+        pts = [tuple(cv(v) for v in p_.split(";")) for p_ in body.split(",")] if body else []
+        arr = np.array(pts, dtype=dt).reshape(-1, 2)
+        o = guarded(lambda: roi.roi_from_points(arr, (ny, nx), padding=np.int64(pad) if spell.get("np_pad") else pad,
+                                                align=al))
+        fin = [(Fraction(x), Fraction(y)) for x, y in (arr.tolist() if dt.startswith(("int", "uint")) else
+                                                         [(float(a_), float(b_)) for a_, b_ in arr.astype("float64")])
+               if math.isfinite(x) and math.isfinite(y)]
+
+        def env(vals, n):
+            if not vals:
+                return (0, 0)
+            lo, hi = math.floor(min(vals)) - pad, math.ceil(max(vals)) + pad
+            if al:
+                lo, hi = lo - lo % al, hi + (-hi) % al
+            return (min(max(lo, 0), n), min(max(hi, 0), n))
+
+        want = (env([p_[1] for p_ in fin], ny), env([p_[0] for p_ in fin], nx))
+        got = o if isinstance(o, str) else ((int(o[0].start), int(o[0].stop)), (int(o[1].start), int(o[1].stop)))
+        print(f"roi_from_points({dt} array {arr.tolist()[:6]}, ({ny},{nx}), padding={pad}, align={al}) -> {got}; envelope {want}")
+        return 0 if got == want else 1
+    if rec.get("key") == "normalise-selects-different-elements" and case.get("s", "").count(":") == 2:
         n = case["n"]
         _, a, b = case["s"].split(":")
         s = slice(None if a == "N" else int(a), None if b == "N" else int(b))
